@@ -318,7 +318,21 @@ class CaseFile:
             files.append(fn)
 
         def one(fn):
-            return sh(f"coqc -Q {COQ} OP -w -notation-overridden,-deprecated-hint-without-locality,-deprecated-instance-without-locality,-ambiguous-paths,-deprecated-syntactic-definition {fn.name}", timeout, cwd=wd)
+            cmd = (f"coqc -Q {COQ} OP -w -notation-overridden,-deprecated-hint-without-locality,-deprecated-instance-without-locality,"
+                   f"-ambiguous-paths,-deprecated-syntactic-definition {fn.name}")
+            r = sh(cmd, timeout, cwd=wd)
+            tries = 0
+            # another check process may be rebuilding shared .vo files (it holds coq/.lock while it does): wait for it and retry
+            while r[0] != 0 and tries < 3 and ("inconsistent assumptions" in r[1] or "Cannot find a physical path" in r[1]
+                                                or "bad version number" in r[1] or "Corrupted" in r[1] or "not found in loadpath" in r[1]):
+                tries += 1
+                import fcntl
+                with open(COQ / ".lock", "w") as lk:
+                    fcntl.flock(lk, fcntl.LOCK_EX)
+                    fcntl.flock(lk, fcntl.LOCK_UN)
+                time.sleep(2 * tries)
+                r = sh(cmd, timeout, cwd=wd)
+            return r
 
         with ThreadPoolExecutor(max_workers=JOBS) as ex:
             results = list(ex.map(one, files))
